@@ -278,38 +278,47 @@ func GetFingerprint(q string) string {
 				// closing ) for this value.
 				continue
 			}
-			if parOpenTotal == 0 {
-				// SELECT value FROM t
+			if parOpenTotal != 0 {
+				// (<anything>) -> (?+) only for first value
 				if Debug {
-					fmt.Println("Literal values not VALUES()")
+					fmt.Println("Values end")
 				}
-				s = inWord
+				valueNo++
+				if valueNo == 1 {
+					if qi-firstPar > 1 {
+						copy(f[fi:fi+4], "(?+)")
+						fi += 4
+					} else {
+						// INSERT INTO t VALUES ()
+						copy(f[fi:fi+2], "()")
+						fi += 2
+					}
+					firstPar = 0
+				}
+				// ... the difficult part is that there may be other values, e.g.
+				// (1), (2), (3).  So we enter the following state.  The values list
+				// ends when the next char is not a comma.
+				s = moreValuesOrUnknown
+				pr = r
+				cpFromOffset = qi + 1
+				parOpenTotal = 0
 				continue
 			}
-			// (<anything>) -> (?+) only for first value
+			// SELECT value FROM t: the word is not followed by a value list.  It
+			// has been copied; go on with this char as after any other word.
 			if Debug {
-				fmt.Println("Values end")
+				fmt.Println("Literal values not VALUES()")
 			}
-			valueNo++
-			if valueNo == 1 {
-				if qi-firstPar > 1 {
-					copy(f[fi:fi+4], "(?+)")
-					fi += 4
-				} else {
-					// INSERT INTO t VALUES ()
-					copy(f[fi:fi+2], "()")
-					fi += 2
-				}
-				firstPar = 0
+			if cpFromOffset < qi {
+				// white space was skipped
+				f[fi] = ' '
+				fi++
+				s = inSpace
+			} else {
+				s = inWord
 			}
-			// ... the difficult part is that there may be other values, e.g.
-			// (1), (2), (3).  So we enter the following state.  The values list
-			// ends when the next char is not a comma.
-			s = moreValuesOrUnknown
-			pr = r
-			cpFromOffset = qi + 1
-			parOpenTotal = 0
-			continue
+			cpFromOffset = qi
+			sqlState = unknown
 		} else if s == inMLC {
 			// We're in a /* mutli-line comments */.  Skip and ignore it all.
 			if pr == '*' && r == '/' {
